@@ -106,3 +106,69 @@ Proof.
     + unfold pop_defer, leave. simpl. rewrite Hm. rewrite <- app_assoc. reflexivity.
     + simpl in *. repeat split; assumption.
 Qed.
+
+Theorem defer_lifo P0 ks n : (length ks + 6 < n)%nat ->
+  m_run n (map emit_clo ks :: P0) 0 = Some (RNormal, 0, ks).
+Proof.
+  intros Hn. unfold m_run. destruct n as [|n]; [lia|]. simpl m_frame. unfold body_of. simpl nth.
+  rewrite m_acts_install by lia. rewrite app_nil_r, <- map_rev.
+  edestruct (m_defers_emit (map emit_clo ks :: P0) 0%nat (rev ks) n 0 (mkG None None None false false 1) [])
+    as (g' & Hm & _); [rewrite rev_length; lia|reflexivity|reflexivity|].
+  simpl pan_of. rewrite Hm. rewrite rev_involutive, app_nil_r. reflexivity.
+Qed.
+
+(* the reference semantics says the same *)
+Lemma sem_acts_install P ks : forall n r ds cur tr, (length ks < n)%nat ->
+  sem_acts n P (map emit_clo ks) r ds cur tr = Some (RNormal, r, rev (map (fun k => DClo [AEmit k]) ks) ++ ds, cur, tr).
+Proof.
+  induction ks as [|k ks IH]; intros n r ds cur tr Hn; destruct n as [|n]; simpl in *; try lia.
+  - reflexivity.
+  - rewrite IH by lia. rewrite <- app_assoc. reflexivity.
+Qed.
+
+Lemma sem_defers_emit P ks : forall n r tr, (length ks + 4 < n)%nat ->
+  sem_defers n P (map (fun k => DClo [AEmit k]) ks) r None tr = Some (None, r, rev ks ++ tr).
+Proof.
+  induction ks as [|k ks IH]; intros n r tr Hn.
+  - destruct n; [simpl in Hn; lia|]. reflexivity.
+  - destruct n as [|n]; [simpl in Hn; lia|]. simpl map. simpl sem_defers.
+    assert (E : sem_frame n P [AEmit k] r None tr = Some (RNormal, r, None, k :: tr)).
+    { destruct n as [|[|[|n]]]; try (simpl in Hn; lia). reflexivity. }
+    rewrite E. rewrite IH by (simpl in Hn; lia). simpl. rewrite <- app_assoc. reflexivity.
+Qed.
+
+Theorem defer_lifo_sem P0 ks n : (length ks + 6 < n)%nat ->
+  sem_run n (map emit_clo ks :: P0) 0 = Some (RNormal, 0, ks).
+Proof.
+  intros Hn. unfold sem_run. destruct n as [|n]; [lia|]. simpl sem_frame. unfold body_of. simpl nth.
+  rewrite sem_acts_install by lia. rewrite app_nil_r, <- map_rev. simpl pan_of.
+  rewrite sem_defers_emit by (rewrite rev_length; lia). rewrite rev_involutive, app_nil_r. reflexivity.
+Qed.
+
+(* ---------- named results, nested panics: closed forms for all values ---------- *)
+Lemma named_result_after_recover a b v :
+  m_run 20 [[ADeferClo [ARecover; AAddR b]; ASetR a; APanic v]] 0 = Some (RNormal, a + b, [1000 + v]) /\
+  sem_run 20 [[ADeferClo [ARecover; AAddR b]; ASetR a; APanic v]] 0 = Some (RNormal, a + b, [1000 + v]).
+Proof. split; reflexivity. Qed.
+
+Lemma named_result_normal_return a b c :
+  m_run 20 [[ADeferClo [AAddR b]; ADeferClo [ASetR c]; ASetR a]] 0 = Some (RNormal, c + b, []) /\
+  sem_run 20 [[ADeferClo [AAddR b]; ADeferClo [ASetR c]; ASetR a]] 0 = Some (RNormal, c + b, []).
+Proof. split; reflexivity. Qed.
+
+Lemma panic_in_deferred_replaces v w :
+  m_run 20 [[ADeferClo [ARecover]; ADeferClo [APanic w]; APanic v]] 0 = Some (RNormal, 0, [1000 + w]) /\
+  sem_run 20 [[ADeferClo [ARecover]; ADeferClo [APanic w]; APanic v]] 0 = Some (RNormal, 0, [1000 + w]).
+Proof. split; reflexivity. Qed.
+
+Lemma unrecovered_panic_escapes v k :
+  m_run 20 [[ADeferClo [AEmit k; ARecoverDeep]; APanic v]] 0 = Some (RPanic v, 0, [-1; k]) /\
+  sem_run 20 [[ADeferClo [AEmit k; ARecoverDeep]; APanic v]] 0 = Some (RPanic v, 0, [-1; k]).
+Proof. split; reflexivity. Qed.
+
+(* finding C07-1: an inner panic raised and recovered inside a deferred call swallows the outer panic *)
+Definition k1 : prog := [[ADeferClo [ADeferClo [ARecover]; APanic 2]; APanic 1]].
+
+Lemma nested_recovered_refuted :
+  sem_run 30 k1 0 = Some (RPanic 1, 0, [1002]) /\ m_run 30 k1 0 = Some (RNormal, 0, [1002]).
+Proof. split; reflexivity. Qed.
